@@ -316,7 +316,62 @@ def scale_derived_sets(max_deleted):
     return out
 
 
+# ---------------------------------------------------------------------------------------
+# call_order: the answers do not depend on which form was asked first in a cold process
+# ---------------------------------------------------------------------------------------
+import importlib
+from mingus.core import keys as _K
+
+
+def _cold():
+    """cold start of the key tables without naming them: re-execute mingus.core.keys"""
+    importlib.reload(_K)
+
+
+def run_call_order(inst):
+    """From a cold start: ascending then descending; from another cold start: descending first, then ascending,
+    then descending again and the plain major / natural minor scale on the same tonic.  A differential oracle: the
+    ascending / descending clauses check the lists themselves."""
+    S = engine.S
+    label = "%s(%s)" % (inst[0], ", ".join(repr(x) for x in inst[1:]))
+    _cold()
+    sc = make(inst)
+    a1 = list(sc.ascending())
+    d1 = list(sc.descending())
+    sib = None
+    tonic = tonic_name(inst)
+    for cls in ("NaturalMinor", "Major"):
+        try:
+            cand = make([cls, tonic if cls == "Major" else tonic, 1])
+            sib_first = list(cand.ascending())
+            sib = cls
+            break
+        except Exception:                              # noqa -- tonic not valid for that class
+            continue
+    _cold()
+    sc = make(inst)
+    d2 = list(sc.descending())
+    a2 = list(sc.ascending())
+    d3 = list(sc.descending())
+    fresh = make(inst)
+    d4 = list(fresh.descending())
+    S.trans(8)
+    if d2 != d1:
+        S.problem(label + ".descending() asked first in a cold process", d1, d2, detail="differs from the answer given after ascending()")
+    if a2 != a1:
+        S.problem(label + ".ascending() asked after descending() in a cold process", a1, a2)
+    if d3 != d1 or d4 != d1:
+        S.problem(label + ".descending() asked again", d1, d3 if d3 != d1 else d4)
+    if sib is not None:
+        again = list(make([sib, tonic, 1]).ascending())
+        if again != sib_first:
+            S.problem("%s(%r).ascending() after %s was asked for its descending form first" % (sib, tonic, label), sib_first, again)
+    S.outcome((inst[0], tuple(d1) == tuple(reversed(a1))))
+    S.count("call_orders_checked")
+
+
 CLAUSES = {
+    "call_order": run_call_order,
     "ascending": run_ascending,
     "descending": run_descending,
     "degree": run_degree,
@@ -354,6 +409,8 @@ def explore(ctx):
     for clause in ("ascending", "descending", "degree"):
         if ctx.want(clause):
             ctx.product(clause, shards, gen_instances)
+    if ctx.want("call_order"):
+        ctx.product("call_order", [(c, p, t, [1]) for c, p, t in instances(k, [1])], gen_instances)
     if ctx.want("len_eq"):
         tonics = ctx.pick(["C", "A", "Bb", "F#", "Eb", "B"],
                           ["C", "C#", "Db", "D", "Eb", "E", "F", "F#", "G", "Ab", "A", "Bb", "B"])
